@@ -47,6 +47,27 @@ CHECKS.update({
     ),
 })
 
+CHECKS.update({
+    "C02": (
+        "Hypothesis program generator x {default, fast} x {uncompute on, off}; oracle: own reversible simulator on all 2^n basis inputs vs own evaluation of the library's expression for each return bit",
+        "Compiled circuits of generated programs (half of them boolean-shape programs that drive the compiler into nested xor/and/or/not shapes with shared sub-expressions) are simulated bit-parallel on every basis input in all four configurations; every return bit must be mapped to an in-range qubit that ends with the value of its expression. Sampled over programs (<=10 input bits), exhaustive over inputs.",
+        "Reference is the library's own expression list (C01 ties it to the source); trusts vlib/sims.py and vlib/boolsem.py; circuits with non-classical gates are out of domain.",
+        "DESIGN.md section 3 C02",
+    ),
+    "C03": (
+        "same generator, uncompute=True; invariant oracle over the final value of every qubit for all 2^n basis inputs (reversible simulator)",
+        "For every generated program and both optimizer profiles the final columns of all qubits are computed for all inputs: argument qubits unchanged, every qubit that is neither argument nor mapped from a return bit back to zero. Sampled over programs, exhaustive over inputs.",
+        "Output qubits are those mapped from return bit names; trusts vlib/sims.py.",
+        "DESIGN.md section 3 C03",
+    ),
+    "C06": (
+        "same generator restricted to single-bool returns; oracle: reversible simulation over all 2^(n+1) (x, y) pairs, output must be y xor f(x) with inputs and scratch restored",
+        "Every generated predicate circuit is run with the output qubit initialised to both values for every input: it must flip the output exactly when the library's own expression for _ret is true, leave inputs unchanged and scratch at zero; the output qubit must be a dedicated qubit. Sampled over programs, exhaustive over (x, y).",
+        "f is the library's own _ret expression; trusts vlib/sims.py and vlib/boolsem.py.",
+        "DESIGN.md section 3 C06",
+    ),
+})
+
 NOT_YET = "check not built yet in this session (work in progress; see DESIGN.md section 3)"
 
 
